@@ -122,6 +122,18 @@ theorem C07_legacy (P : Params) (cfg : Cfg) (es : List Ev) (hm : Mono es none) :
     Legacy.run Flags.current P cfg es GState.init = Spec.runs P cfg es [] :=
   C07_legacy_repaired Flags.current rfl P cfg es hm
 
+/-- **Legacy, several trigger decorators of one type** (one `TrigInfo` task per k-th decorator, each with its own
+`last_trig_time`): the function is gated like the specification demands – every task applies the same `@state_active` /
+`@time_active` guards to its occurrences – as long as all occurrences come from one task, or no `hold_off` is given. -/
+theorem C07_legacy_groups_partial (P : Params) (cfg : Cfg) (es : List (Nat × Ev)) (hm : Mono (es.map (·.2)) none)
+    (h : (∃ k, ∀ e ∈ es, e.1 = k) ∨ cfg.timeActive = false ∨ cfg.holdOff = none) :
+    Legacy.runGroups Flags.current P cfg es (fun _ => GState.init) = Spec.runs P cfg (es.map (·.2)) [] := by
+  rcases h with ⟨k, hk⟩ | hh
+  · rw [Legacy.runGroups_single Flags.current P cfg k es _ hk]
+    exact C07_legacy P cfg _ hm
+  · rw [Legacy.runGroups_holdfree Flags.current rfl P cfg hh es _ GState.init]
+    exact C07_legacy P cfg _ hm
+
 /-! ## new subsystem -/
 
 /-- **The fully repaired new subsystem gates correctly** – additionally `last_trig_time` stamped only when every handler
@@ -209,6 +221,18 @@ theorem C07_regress_stale_locals :
     Legacy.run Flags.current Params.trivial cfg es GState.init = [true, false] ∧
     New.run Flags.current Params.trivial cfg es GState.init = [true, false] ∧
     Spec.runs Params.trivial cfg es [] = [true, false] := by
+  decide
+
+/-- finding C07-F5 (legacy): `@time_active(hold_off=5)` on a function with two `@state_trigger` decorators – the second
+decorator lives in a second task with its own `last_trig_time`: its occurrence at 2 s runs although the function ran at 1 s
+(the new subsystem and the specification ignore it). -/
+theorem C07_legacy_cex_hold_off_per_task :
+    let cfg : Cfg := ⟨false, true, [], some 5000, true, wNoon⟩
+    let o1 : Ev := .occ ⟨1, 1000, wNoon, true, true, .truthy, []⟩
+    let o2 : Ev := .occ ⟨2, 2000, wNoon, true, true, .truthy, []⟩
+    Legacy.runGroups Flags.current Params.trivial cfg [(0, o1), (1, o2)] (fun _ => GState.init) = [true, true] ∧
+    New.run Flags.current Params.trivial cfg [o1, o2] GState.init = [true, false] ∧
+    Spec.runs Params.trivial cfg [o1, o2] [] = [true, false] := by
   decide
 
 /-! ## guards never start a run; direct calls -/
